@@ -10,7 +10,8 @@ git -C /repo worktree add -q --detach $WT HEAD || exit 2
 missed=0
 for id in $IDS; do
   d=/verif/seeded/$id
-  prop=$(python3 -c "import json;m=json.load(open('$d/meta.json'));print(m.get('detected_by',{}).get('check') or m['property'])")
+  prop=$(python3 -c "import json;m=json.load(open('$d/meta.json'));db=m.get('detected_by');print('SKIP' if db is None else (db.get('check') or m['property']))")
+  if [ "$prop" = SKIP ]; then echo "SKIPPED $id (recorded as not detectable: stubbed component)"; continue; fi
   cp $d/patch.diff /tmp/regress_$id.patch
   out=$(/verif/trial.sh $WT /tmp/regress_$id.patch $prop $SECS 2>&1 | tail -1)
   rm -f /tmp/regress_$id.patch
